@@ -37,12 +37,22 @@ Definition keep_pair (names : list string) (pair : string) : bool :=
 Definition remove_from_raw (names : list string) (q : string) : string :=
   join_with "&" (filter (keep_pair names) (split_on "&" q)).
 
-(** QueryParamsRemover.RemoveFrom; [fixed] = with the repair of C15-F1 *)
-Definition remove_from_fx (fixed : bool) (names : list string) (q : string) : string :=
+(** which repairs of RemoveFrom the modelled tree contains: C15-F1 (41fd1db: an
+    unparsable query is handled setting by setting) and C15-F6 (fixes/C15-F6.diff:
+    every query is, nothing is re-encoded or re-ordered) *)
+Record qfix := { qf1 : bool; qf6 : bool }.
+
+(** QueryParamsRemover.RemoveFrom *)
+Definition remove_from_q (m : qfix) (names : list string) (q : string) : string :=
   if is_empty q || is_nil names then q
+  else if qf6 m then remove_from_raw names q
   else let '(vals, err) := parse_query q in
-       if err then (if fixed then remove_from_raw names q else q)
+       if err then (if qf1 m then remove_from_raw names q else q)
        else values_encode (del_all names vals).
+
+(** [fixed] = with the repair of C15-F1 only (the interface C08 uses) *)
+Definition remove_from_fx (fixed : bool) : list string -> string -> string :=
+  remove_from_q {| qf1 := fixed; qf6 := false |}.
 
 Definition remove_from : list string -> string -> string := remove_from_fx false.
 
@@ -50,7 +60,7 @@ Definition transform_path (rw : rewriter) (p : string) : string :=
   add_to (rw_add rw) (cut_from (rw_cut rw) p).
 
 (** URLRewriter.Rewrite *)
-Definition rewrite_fx (fixed : bool) (rw : rewriter) (u : hurl) : hurl :=
+Definition rewrite_q (m : qfix) (rw : rewriter) (u : hurl) : hurl :=
   let raw' := transform_path rw (escaped_path (u_path u) (u_rawpath u)) in
   let rp1 := if is_empty (u_rawpath u) then u_rawpath u else raw' in
   let path' := unescape_or_empty raw' in
@@ -58,19 +68,21 @@ Definition rewrite_fx (fixed : bool) (rw : rewriter) (u : hurl) : hurl :=
      u_host := u_host u;
      u_path := path';
      u_rawpath := if String.eqb path' raw' then rp1 else raw';
-     u_query := remove_from_fx fixed (rw_strip_q rw) (u_query u) |}.
+     u_query := remove_from_q m (rw_strip_q rw) (u_query u) |}.
 
+Definition rewrite_fx (fixed : bool) : rewriter -> hurl -> hurl := rewrite_q {| qf1 := fixed; qf6 := false |}.
 Definition rewrite : rewriter -> hurl -> hurl := rewrite_fx false.
 
 (** Backend.CreateURL *)
-Definition create_url_fx (fixed : bool) (b : backend) (u : hurl) : hurl :=
+Definition create_url_q (m : qfix) (b : backend) (u : hurl) : hurl :=
   let up := {| u_scheme := u_scheme u; u_host := b_host b; u_path := u_path u;
                u_rawpath := u_rawpath u; u_query := u_query u |} in
   match b_rw b with
-  | Some rw => rewrite_fx fixed rw up
+  | Some rw => rewrite_q m rw up
   | None => up
   end.
 
+Definition create_url_fx (fixed : bool) : backend -> hurl -> hurl := create_url_q {| qf1 := fixed; qf6 := false |}.
 Definition create_url : backend -> hurl -> hurl := create_url_fx false.
 
 (** what the HTTP client writes into the request line for this URL *)
